@@ -115,6 +115,8 @@ _op("gm_p", "mut", _dp("p", "get(){E(\"GM\");DP(p,\"a\",{value:n++,writable:true
 _op("gd_p", "mut", _dp("p", "get(){E(\"GD\");delete p.a;return 0}"))                                                               # getter deletes itself
 _op("gd_o", "mut", _dp("o", "get(){E(\"gd\");delete o.a;o.c=n++;return 0}"))                                                      # own getter deletes itself and adds c
 _op("sm_p", "mut", _dp("p", "set(v){E(\"SM \"+sv(v));DP(p,\"a\",{value:v,writable:true,enumerable:true,configurable:true})}"))    # setter replaces itself by a data property
+_op("su_p", "mut", _dp("p", "get(){E(\"G3\");return 3},set:undefined"))   # accessor whose setter is undefined (keeps attributes and shape of gs_p)
+_op("su_o", "mut", _dp("o", "get(){E(\"g3\");return 3},set:undefined"))
 _op("ro_p", "mut", _dp("p", "value:5,writable:false,enumerable:true"))
 _op("ne_p", "mut", _dp("p", "value:15,writable:true,enumerable:false"))
 _op("proto_o=p", "mut", _mut("SPO(o,p)"))
